@@ -88,6 +88,8 @@ func c16Configs(tier string) []c16Config {
 	// group consumers whose group field sits in a nested parameter object, with
 	// dependants of their result (so that some other node comes first)
 	add(one, []*uFunc{pGnest, pD, fG1, pDd}, nil, []int{2, 3})
+	// a cycle through a group whose consumer comes first (its group node is node 0)
+	add(one, []*uFunc{rAgB, rBgC, rCA, pGG, fAgC}, nil, []int{2, 3})
 	if q {
 		add(chain, []*uFunc{rCA, rAgB, fBg, pDd}, nil, []int{3})
 		add(fork, []*uFunc{pA, pB, fG1, pG}, nil, []int{3})
@@ -181,13 +183,33 @@ func c16Run(cfg h.Config, seq []Op, nscopes int) c16Obs {
 			}
 		}
 	}
+	// Which functions a *failing* Invoke executes before it fails depends on
+	// the unspecified order in which independent dependencies are built
+	// (§3.6-6), and so does what later probes still find to build. A failed
+	// probe is therefore compared by its verdict class alone, and probes
+	// after it by verdict class plus what the invoked function received.
+	failedBefore := false
 	for _, f := range c16Probes {
 		for s := 0; s < nscopes; s++ {
 			st := r.Apply(invoke(s, f))
 			if st.V.Cycle {
 				o.anyCyc = true
 			}
-			o.probes = append(o.probes, wiringText(r, st, leavesLookup(r)))
+			switch {
+			case !st.V.OK:
+				o.probes = append(o.probes, st.V.Class())
+				failedBefore = true
+			case failedBefore:
+				txt := st.V.Class()
+				for _, part := range strings.Split(wiringText(r, st, leavesLookup(r)), " ; ") {
+					if strings.Contains(part, "enter "+specOf(st.Inst)+"(") {
+						txt += " :: " + part[strings.Index(part, "enter "):]
+					}
+				}
+				o.probes = append(o.probes, txt)
+			default:
+				o.probes = append(o.probes, wiringText(r, st, leavesLookup(r)))
+			}
 		}
 	}
 	o.history = h.HistoryText(r)
